@@ -99,6 +99,8 @@ class DnsRecordDnskey(ParsableBase, Serializable):
             exponent_length = key_parser['exponent_length_two_octets']
         key_parser.parse_mpint('public_exponent', exponent_length)
         key_parser.parse_mpint('modulus', key_parser.unparsed_length)
+        if key_parser['public_exponent'] <= 0 or key_parser['modulus'] <= 0:
+            raise InvalidValue(key_parser['modulus'], cls, 'key')
 
         return PublicKey.from_params(PublicKeyParamsRsa(
             public_exponent=key_parser['public_exponent'],
